@@ -194,6 +194,10 @@ def run(tier):
 def _run(ck, seed, quick, pool, nproc, t0):
     rng = random.Random(seed)
     os.makedirs(BUILD, exist_ok=True)
+    phases = {}
+
+    def mark(name):
+        phases[name] = round(time.time() - t0, 1)
     tmo = 240 if quick else 3000
     ex = ThreadPoolExecutor(16)
 
@@ -205,16 +209,16 @@ def _run(ck, seed, quick, pool, nproc, t0):
                                                           "light": quick},)))
     walks_f = ex.submit(purity_texts, ck, 120 if quick else 1500, seed)
 
-    # ---- (M) a first small run also delivers the document table
-    r0 = run_calls("purity_model", calls_cfg([1], "fresh", PURE + ["dumps_sep", "validate_addc"], [1, 4, 5], 3, 3), timeout=tmo)
-    ck.add_tlc("purity_model(1 thread, 3 calls, all kinds incl. the two mutating ones)", r0)
-    if r0.violated:
-        ck.violation("C12|model|%s|purity_model" % r0.violated, "model property violated", {"trace": tlc.error_trace(r0)})
+    # ---- (M) a first tiny run (one of the negative configurations) also delivers the document table
+    name0, kw0, want0 = NEGATIVES[-1]
+    r0 = run_calls(name0, calls_cfg(**kw0), timeout=tmo)
+    mark("first_model_run")
     doctable = next((p["doctable"] for p in r0.prints if isinstance(p, dict) and "doctable" in p), None)
     if not doctable:
         raise common.MachineryFailure("spec/Calls.tla did not print its document table")
 
-    model_jobs = {}
+    model_jobs = {"purity_model(1 thread, 3 calls, all kinds incl. the two mutating ones)": ex.submit(
+        run_calls, "purity_model", calls_cfg([1], "fresh", PURE + ["dumps_sep", "validate_addc"], [1, 4, 5], 3, 3), None, 2, tmo)}
     if quick:
         model_jobs["fresh_2threads"] = ex.submit(run_calls, "fresh2", calls_cfg([1, 2], "fresh", PURE, ALLDOCS, 2, 1),
                                                  None, 4, tmo)
@@ -227,7 +231,7 @@ def _run(ck, seed, quick, pool, nproc, t0):
                                                         None, 4, tmo)
         model_jobs["reuse_6calls"] = ex.submit(run_calls, "reuse6", calls_cfg([1], "shared_all", PURE, ALLDOCS, 6, 6),
                                                None, 2, tmo)
-    neg_jobs = {name: ex.submit(run_calls, name, calls_cfg(**kw), None, 1, tmo) for name, kw, _ in NEGATIVES}
+    neg_jobs = {name: ex.submit(run_calls, name, calls_cfg(**kw), None, 1, tmo) for name, kw, _ in NEGATIVES[:-1]}
 
     # ---- (G) histories for re-use, schedules
     nh = 150 if quick else 3000
@@ -249,7 +253,9 @@ def _run(ck, seed, quick, pool, nproc, t0):
                                                           "light": quick},)))
 
     # ---- schedules -> worker processes
+    mark("walks_rendered")
     rs = sched_f.result()
+    mark("schedules_enumerated")
     ck.add_tlc("schedules(script mode: every interleaving at the chosen seams)", rs)
     if rs.violated:
         ck.violation("C12|model|%s|schedules" % rs.violated, "model property violated under Policy=fresh",
@@ -281,6 +287,7 @@ def _run(ck, seed, quick, pool, nproc, t0):
 
     # ---- histories -> re-use replay
     rh = hist_f.result()
+    mark("histories_simulated")
     ck.add_tlc("histories(simulate, one thread, re-used workers)", rh)
     if rh.violated:
         ck.violation("C12|model|%s|histories" % rh.violated, "model property violated on re-used workers",
@@ -305,12 +312,13 @@ def _run(ck, seed, quick, pool, nproc, t0):
             ck.violation("C12|model|%s|%s" % (r.violated, name), "model property %s violated (%s)" % (r.violated, name),
                          {"trace": tlc.error_trace(r)})
     for name, kw, want in NEGATIVES:
-        r = neg_jobs[name].result()
+        r = neg_jobs[name].result() if name in neg_jobs else r0
         ck.add_tlc(name + " (must be rejected: %s)" % want, r)
         if r.violated != want:
             raise common.MachineryFailure("negative configuration %s: TLC reported %r, expected %s - the model is vacuous"
                                           % (name, r.violated, want))
 
+    mark("models_checked")
     # ---- collect purity, judge with TraceCalls.tla
     records, cases, loaded = [], {}, 0
     cpu = {"purity": 0.0, "reuse": 0.0, "schedules": 0.0, "stress": 0.0}
@@ -324,8 +332,11 @@ def _run(ck, seed, quick, pool, nproc, t0):
     with open(trace, "w") as f:
         for r in records:
             f.write(json.dumps({k: r[k] for k in ("tid", "call", "fn", "pre", "post", "diff")}) + "\n")
-    rt = tlc.run("TraceCalls", tlc.cfg_text(init="TInit", next_="TNext", invariants=["Report", "Counted"]),
-                 tag="c12_tracecalls", workers=1, env={"TRACE_FILE": trace}, timeout=tmo)
+    mark("purity_recorded")
+    rt_f = ex.submit(tlc.run, "TraceCalls", tlc.cfg_text(init="TInit", next_="TNext", invariants=["Report", "Counted"]),
+                     tag="c12_tracecalls", workers=1, env={"TRACE_FILE": trace}, timeout=tmo)
+    # (meanwhile the worker processes drain the re-use, schedule and stress jobs)
+    rt = rt_f.result()
     ck.add_tlc("TraceCalls(purity trace, %d records)" % len(records), rt)
     if rt.violated:
         raise common.MachineryFailure("TraceCalls invariant %s violated" % rt.violated)
@@ -356,6 +367,7 @@ def _run(ck, seed, quick, pool, nproc, t0):
         raise common.MachineryFailure("only %d of %d purity documents loaded" % (loaded, len(files) + len(texts)))
     ck.sample({"purity_record": records[len(records) // 2]})
 
+    mark("purity_judged")
     # ---- collect re-use
     nreuse, classes = 0, set()
     for j in reuse_async:
@@ -370,6 +382,7 @@ def _run(ck, seed, quick, pool, nproc, t0):
         ck.nontrivial("hist|" + json.dumps([c["call"] for c in h], sort_keys=True))
     ck.sample({"history": [dict(c["call"], ret=c["ret"]) for c in hists[0]][:4]})
 
+    mark("reuse_done")
     # ---- collect schedules
     nsched, failures, notes, seams_seen = 0, [], [], {}
     for sid, job, a in sched_async:
@@ -390,6 +403,7 @@ def _run(ck, seed, quick, pool, nproc, t0):
     ck.sample({"forced_schedule": {"script": scripts[0][0], "one_of": expected_counts.get(1),
                                    "schedule": sched_key(sched_jobs[0][2]["scheds"][0]) if sched_jobs else None}})
 
+    mark("schedules_done")
     # ---- collect stress
     stress_counts = {}
     for a in stress_async:
@@ -412,6 +426,7 @@ def _run(ck, seed, quick, pool, nproc, t0):
         "schedules_per_script": {str(k): len(v) for k, v in by_sid.items()},
         "stress_calls": stress_counts, "stress_threads": 16, "stress_seconds": secs,
         "negative_configs_rejected": [n for n, _, _ in NEGATIVES],
+        "phase_done_at_s": dict(phases, stress_done=round(time.time() - t0, 1)),
         "cpu_s": {k: round(v, 1) for k, v in cpu.items()}, "tlc_wall_s": round(sum(t.get("wall_s", 0) for t in ck.tlc), 1),
         "seams": "lark InteractiveParser.iter_parse / Lark.parse_interactive, Parser.parse/_assign_comments, "
                  "MapfileToDict.transform/__setattr__, PrettyPrinter.pprint, Validator.validate/get_expanded_schema/"
